@@ -648,7 +648,7 @@ static void apiRun(int run, const Circuit &base, vg::Rng &r) {
         arg.set("rows", rj);
         c.setRows(rows);
       } else {
-        int x0 = (int)r.in(-10, 10), y0 = (int)r.in(-10, 10), w = (int)r.in(0, 40), hh = (int)r.in(0, 30);
+        int x0 = (int)r.in(-10, 10), y0 = (int)r.in(-10, 10), w = (int)r.in(1, 40), hh = (int)r.in(0, 30);
         int rh = (int)r.pick(std::vector<int>{1, 2, 3, 4, 7, 0, -2});
         bool alt = r.chance(0.5), init = r.chance(0.5);
         arg.set("x0", x0).set("x1", x0 + w).set("y0", y0).set("y1", y0 + hh).set("h", rh).set("alt", alt).set("init", init);
@@ -666,6 +666,10 @@ static void apiRun(int run, const Circuit &base, vg::Rng &r) {
     }
     e.set("run", run).set("step", st).set("kind", kind).set("arg", arg).set("outcome", outcome).set("what", what);
     e.set("circ", vp::circuitToJson(c)).set("wl", c.hpwl()).set("pw", pw).set("ph", ph);
+    Value fr = Value::array();
+    for (const Row &f : c.computeRows())
+      fr.push(Value::object().set("x0", f.minX).set("x1", f.maxX).set("y0", f.minY).set("y1", f.maxY).set("o", vp::orientName(f.orientation)));
+    e.set("free", fr);
     vt::emit(e);
   }
 }
